@@ -27,6 +27,7 @@ def build(pc, E, canary=None):
     pc.E = E
     import contracts.route as R
     R.verify_match_path(pc, E)
+    R.verify_converters(pc, E)
     n = 3 if pc.tier == 'thorough' and canary is None else 2
     dump = native('patterns_dump.py', {'n': n}, repo_root=E.repo.root, timeout=900)
     for it in RR.lex_items(dump['lex']):
